@@ -43,7 +43,7 @@ TOL = 1e-9
 def budget(tier):
     if tier == "quick":
         return dict(examples=250, shards=4)
-    return dict(examples=4000, shards=16)
+    return dict(examples=2500, shards=16)
 
 
 @st.composite
